@@ -4,9 +4,12 @@ import json, glob, os
 V = os.path.dirname(os.path.dirname(os.path.abspath(__file__)))
 p = f"{V}/bin/checks.json"
 s = json.load(open(p))
-by = {c["id"]: c for c in s["checks"]}
+approved = set(open(f"{V}/bin/approved.txt").read().split())
+by = {}
 for f in sorted(glob.glob(f"{V}/harness/meta/C*.json") + glob.glob(f"{V}/lab/meta/C*.json")):
     c = json.load(open(f))
+    if c["id"] not in approved:
+        continue
     if c.get("disabled"):
         by.pop(c["id"], None)
         continue
